@@ -63,6 +63,14 @@ def run(rep, props, replay=None):
         tol = 1e-9 * max(1.0, float(nseg) ** p)
         t = runq.add(f"mclose {C.qlit(tol)} (bs_model {C.qlit(a)} {C.qlit(b)} {nseg}%nat {p}%nat {C.qlist(xs)}) {C.qmat(Bm)}")
         todo.append((t, "B-spline basis equals the Cox-de Boor B-splines on the equally spaced extended knots", key, opts, nseg >= 2))
+        # Greville: sum_j xi_j B_j(x) = x with xi_j = mean of the knots t_{j+1..j+p} = a + dx (j - p + (p + 1) / 2)
+        if Bm.shape == (nf, len(xs)):
+            dxk = (b - a) / nseg
+            xi = np.array([a + dxk * (j - p + (p + 1) / 2.0) for j in range(nf)])
+            t = runq.add(f"vclose {C.qlit(1e-9 * max(1.0, abs(a), abs(b)) * max(1.0, float(nseg) ** p))} "
+                         f"(mtv opsQ {len(xs)}%nat {C.qmat(Bm)} {C.qlist(xi)}) {C.qlist(xs)}")
+            todo.append((t, "B-splines reproduce the identity with the Greville coefficients", ("greville", p, nf, a, b, xs.tobytes()),
+                         opts, nseg >= 2))
         bad = []
         if Bm.shape != (nf, len(xs)):
             bad.append(f"shape {Bm.shape}")
